@@ -18,33 +18,35 @@ open Jrpc.Gen
 builder method `fn <name>(mut self, <p>: u32)` — the knob that method is -/
 def srcName : GuardSrc → Option String
   | .cfgField f => some f
-  | .setterParam fn _ => some fn
+  | .setterParam fn => some fn
   | .literal _ => none
   | .unknown _ => none
 
 /-- Every guard in server.rs is sized by `max_connections` (both the `Server::start` accept loop
-and the tower-service assembly, plus the service builder's own `max_connections(limit)` knob); the
-`ServerConfigBuilder::max_connections(n)` knob reaches `ServerConfig.max_connections` unchanged;
-`ConnectionGuard::new(limit)` sizes its semaphore with exactly `limit`; permits are taken at one
-place only, and a missing permit is answered with status 429; every `TowerServiceBuilder` method
-that rebuilds the builder (`set_rpc_middleware`, `set_http_middleware`, … — whichever exist) passes
-`self.conn_guard` and `self.conn_id` through (only the knobs `max_connections` / `connection_id`
-themselves may put a new value there, and the former is sized by its own parameter), so the limit and the sharing of ONE guard between all
-clones of a builder survive any order of setter calls, and `max_connections` is the only method
-that assigns a guard. -/
+and the tower-service assembly, plus the service builder's own `max_connections(limit)` knob, which
+does create a guard from its parameter); the `ServerConfigBuilder::max_connections(n)` knob reaches
+`ServerConfig.max_connections` unchanged; `ConnectionGuard::new(limit)` sizes its semaphore with
+exactly `limit` and records it as `max`; permits are taken at one place only, and a missing permit
+is answered with status 429; every `TowerServiceBuilder` method that rebuilds the builder
+(`set_rpc_middleware`, `set_http_middleware`, … — whichever exist) passes `self.conn_guard` and
+`self.conn_id` through (only the knobs `max_connections` / `connection_id` themselves may put a new
+value there, and the former is sized by its own parameter), so the limit and the sharing of ONE
+guard between all clones of a builder survive any order of setter calls, and `max_connections` is
+the only method that assigns a guard. -/
 theorem c11_wiring :
     connWiringTranslatorOk = true ∧
     (∀ s ∈ connGuardSites, srcName s.src = some "max_connections") ∧
     (∃ s ∈ connGuardSites, s.encl = "start_inner" ∧ s.src = .cfgField "max_connections") ∧
     (∃ s ∈ connGuardSites, s.encl = "to_service_builder" ∧ s.src = .cfgField "max_connections") ∧
+    (∃ s ∈ connGuardSites, s.encl = "max_connections" ∧ s.src = .setterParam "max_connections") ∧
     ("max_connections", "max_connections") ∈ cfgBuildFlows ∧
-    (cfgSetterFlows.lookup "max_connections").map (·.1) = some "max_connections" ∧
-    guardNewShape.2.1 = guardNewShape.1 ∧ guardNewShape.2.2 = guardNewShape.1 ∧
+    ("max_connections", "max_connections") ∈ cfgSetterFlows ∧
+    guardNewShape = ("param", "param") ∧
     tryAcquireSites.length = 1 ∧
     (∀ a ∈ tryAcquireSites, refusalStatus.lookup a.2.2 = some 429) ∧
     (∀ r ∈ towerBuilderRebuilds,
       (r.guard = .carried ∨ r.encl = "max_connections") ∧ (r.connId = .carried ∨ r.encl = "connection_id")) ∧
-    (∀ a ∈ towerBuilderAssigns, a.2.2 = "conn_guard" → a.2.1 = "max_connections") := by
+    (∀ a ∈ towerBuilderAssigns, a.2 = "conn_guard" → a.1 = "max_connections") := by
   decide
 
 /-! ### the invariant -/
